@@ -37,19 +37,26 @@ def mod_of_part(part):
 
 
 def fn_qual(lines, line):
-    """(Type or None, fn) for the function enclosing generated-file line"""
+    """(Type-or-outer-fn or None, fn) for the function enclosing generated-file line"""
     fn, fl = vrun.enclosing_fn(lines, line)
     ty = None
     if fl:
         ind = len(lines[fl - 1]) - len(lines[fl - 1].lstrip())
         i = fl - 2
-        while i >= 0:
+        while i >= 0 and ind > 0:
             l = lines[i]
             if l.strip() and (len(l) - len(l.lstrip())) < ind:
                 m = re.match(r'\s*(?:unsafe\s+)?impl(?:<[^{]*?>)?\s+(?:[A-Za-z_0-9:<>, \']+\s+for\s+)?([A-Za-z_0-9:]+)', l)
                 if m:
                     ty = m.group(1).split('::')[-1]
-                break
+                    break
+                m = vrun.FN_HDR.match(l)
+                if m:
+                    ty = m.group(1)       # nested fn: qualified by the outer fn
+                    break
+                if re.match(r'\s*(pub\s+)?mod\s', l):
+                    break
+                ind = min(ind, len(l) - len(l.lstrip()) + 1)
             i -= 1
     return ty, fn
 
@@ -212,7 +219,7 @@ def decide_build(pid, spec, b, tier, oc, seed):
     kinds = spec.get('kinds')
     known = load_known()
     for e in a['errors']:
-        module = mod_of_part(e['part']) if e['part'] in units.PARTS else ('vbase' if e['part'] and 'prelude' in str(e['part']) else None)
+        module = mod_of_part(e['part']) if e['part'] in units.PARTS else (os.path.basename(str(e['part']))[:-4] if e['part'] and 'prelude' in str(e['part']) else None)
         ty, fn = fn_qual(lines, e['site_line'])
         e['module'], e['qual'] = module, ((ty + '::') if ty else '') + (fn or '?')
         if not selected(sel, module, ty, fn):
@@ -226,6 +233,8 @@ def decide_build(pid, spec, b, tier, oc, seed):
             oc.notes.append('ignored for %s (kind %s): %s::%s' % (pid, k, module, e['qual']))
             continue
         if spec.get('mem_only') and not (k == 'precondition' and MEM_CLAUSE.search(e['clause_text'])):
+            continue
+        if spec.get('non_mem') and k == 'precondition' and MEM_CLAUSE.search(e['clause_text']):
             continue
         code_level = k in ('postcondition', 'precondition', 'arithmetic', 'bounds', 'trait-contract', 'invariant', 'decreases') \
             or (k == 'assertion' and 'code' in e['site_tags']) or (k == 'recommends' and 'code' in e['site_tags'])
